@@ -194,10 +194,18 @@ func HarnessC20Webhooks() {
 	}
 	existing := zz.Bool("validating.installed")
 	if existing {
+		// installed by an earlier run under an older CA: pointing at another
+		// service, or at the very service this run configures (only the
+		// bundle is stale - the certificate was re-issued since)
+		oldSvc := admv1.ServiceReference{Name: "old", Namespace: "old", Path: ptr.To("/validate")}
+		if zz.Bool("validating.installed.same-service") {
+			oldSvc = admv1.ServiceReference{Name: "crossplane-webhooks", Namespace: zzNS, Path: ptr.To("/validate"), Port: ptr.To[int32](9443)}
+		}
 		old := &admv1.ValidatingWebhookConfiguration{ObjectMeta: metav1.ObjectMeta{Name: wantVName}}
 		for i := 0; i < vHooks; i++ {
+			svcCopy := oldSvc
 			old.Webhooks = append(old.Webhooks, admv1.ValidatingWebhook{Name: "hook" + string(rune('0'+i)) + ".example.org", AdmissionReviewVersions: []string{"v1"}, SideEffects: ptr.To(admv1.SideEffectClassNone),
-				ClientConfig: admv1.WebhookClientConfig{CABundle: []byte("OLD-CA"), Service: &admv1.ServiceReference{Name: "old", Namespace: "old", Path: ptr.To("/validate")}}})
+				ClientConfig: admv1.WebhookClientConfig{CABundle: []byte("OLD-CA"), Service: &svcCopy}})
 		}
 		s.Put(old)
 	}
